@@ -756,7 +756,12 @@ func (vc *VC) exprTargets(env *Env, e Expr, text string) []modTarget {
 				return []modTarget{{vc.globalName(v), vc.ss().sortOf(v.Type()), ""}}
 			}
 		}
-		// a captured variable
+		// a captured variable (under the name the function gives it now, if the contract's name is gone)
+		if a, renamed := vc.renamed[x.Name]; renamed {
+			if _, bound := env.lookup("&" + x.Name); !bound {
+				x = &EIdent{Name: a}
+			}
+		}
 		if t, ok := env.lookup("&" + x.Name); ok {
 			elem := derefT(t.T)
 			n, s := vc.cellVar(elem)
